@@ -967,4 +967,159 @@ theorem stepResult_ok (srt : List (List Int) → List Nat) (f1 f2 : MeshFields) 
     · rw [mergePointEntry_name]; exact h1.pfNames a ha
     · exact h2.pfNames b hb
 
+/-! ### the fold over the pieces -/
+
+theorem bringsNewPoint_congr (s1 s2 pts : List (List Int)) (h : ∀ q, q ∈ s1 ↔ q ∈ s2) :
+    bringsNewPoint s1 pts = bringsNewPoint s2 pts := by
+  unfold bringsNewPoint
+  congr 1
+  funext p
+  have : s1.contains p = s2.contains p := by
+    rw [Bool.eq_iff_iff]; simp only [List.contains_eq_mem, decide_eq_true_eq]; exact h p
+  rw [this]
+
+theorem mem_pointItemsOf (f : MeshFields) (names : List String) (it : PointItem) :
+    it ∈ pointItemsOf f names ↔ ∃ k, k < f.mesh.points.length ∧ pointItemBy f names k = it := by
+  simp [pointItemsOf, List.mem_map, List.mem_range]
+
+/-- the hypothesis on the sort, as the theorems need it -/
+def SortsRows (srt : List (List Int) → List Nat) : Prop :=
+  ∀ (pts : List (List Int)) (d : Nat), (∀ p ∈ pts, p.length = d) → IsLexSort pts (srt pts)
+
+theorem stepDups_inv (srt : List (List Int) → List Nat) (hsrt : SortsRows srt) (f1 f2 : MeshFields) (d : Nat)
+    (cnames pnames : List String) (rsC rsP : String → Nat)
+    (h2 : PieceOk f2 d cnames pnames rsC rsP) :
+    DupInv f2.mesh.points f1.mesh.points f1.mesh.points.length (stepDups srt f1 f2) :=
+  mapDuplicatePoints_inv _ _ _ d (hsrt _ d h2.rows) h2.rows ((nodupRows_iff _).mpr h2.nodup)
+
+/-- invariant of `merge`'s loop: `W` = point items of the whole data set (single-valued:
+    items with equal coordinates are equal) -/
+theorem mergeFold_spec (srt : List (List Int) → List Nat) (hsrt : SortsRows srt) (d : Nat)
+    (cnames pnames : List String) (rsC rsP : String → Nat)
+    (W : List PointItem) (hW : ∀ a ∈ W, ∀ b ∈ W, a.coords = b.coords → a = b)
+    (rest : List MeshFields) (acc : MeshFields) (seen : List (List Int))
+    (hacc : PieceOk acc d cnames pnames rsC rsP)
+    (hrest : ∀ f ∈ rest, PieceOk f d cnames pnames rsC rsP)
+    (hseen : ∀ q, q ∈ seen ↔ q ∈ acc.mesh.points)
+    (haccW : ∀ it ∈ pointItemsOf acc pnames, it ∈ W)
+    (hrestW : ∀ f ∈ rest, ∀ it ∈ pointItemsOf f pnames, it ∈ W)
+    (hnew : laterBringNew seen rest = true) :
+    PieceOk (rest.foldl (merge1 srt) acc) d cnames pnames rsC rsP ∧
+    (∀ ct, cellItemsOf (rest.foldl (merge1 srt) acc) cnames ct =
+        cellItemsOf acc cnames ct ++ rest.flatMap (cellItemsOf · cnames ct)) ∧
+    (∀ it, it ∈ pointItemsOf (rest.foldl (merge1 srt) acc) pnames ↔
+        it ∈ pointItemsOf acc pnames ∨ ∃ f ∈ rest, it ∈ pointItemsOf f pnames) := by
+  induction rest generalizing acc seen with
+  | nil => exact ⟨hacc, by simp, by simp⟩
+  | cons f rest ih =>
+    simp only [laterBringNew, Bool.and_eq_true] at hnew
+    obtain ⟨hnew1, hnew2⟩ := hnew
+    have hf := hrest f (List.mem_cons_self ..)
+    have hinv := stepDups_inv srt hsrt acc f d cnames pnames rsC rsP hf
+    have hfilt : (filterExternal (stepDups srt acc f)).isEmpty = false := by
+      apply filter_nonempty_of_new _ _ _ hinv
+      rw [← bringsNewPoint_congr seen acc.mesh.points f.mesh.points hseen]
+      exact hnew1
+    have hstep := merge1_eq_stepResult srt acc f hfilt
+    have hitems := pointItemsOf_step srt acc f d cnames pnames rsC rsP hacc hf hinv
+    simp only [List.foldl_cons, hstep]
+    have hmemstep : ∀ it, it ∈ pointItemsOf (stepResult srt acc f) pnames ↔
+        it ∈ pointItemsOf acc pnames ∨ it ∈ pointItemsOf f pnames := by
+      intro it
+      rw [hitems, List.mem_append]
+      constructor
+      · rintro (h | h)
+        · exact Or.inl h
+        · right
+          obtain ⟨k, hk, rfl⟩ := List.mem_map.mp h
+          obtain ⟨r, hr, hrk⟩ := List.getElem_of_mem hk
+          have := (filter_entry_lt _ r k (by rw [List.getElem?_eq_getElem hr, hrk])).1
+          rw [hinv.len] at this
+          exact (mem_pointItemsOf f pnames _).mpr ⟨k, this, rfl⟩
+      · rintro (h | h)
+        · exact Or.inl h
+        · obtain ⟨k, hk, rfl⟩ := (mem_pointItemsOf f pnames it).mp h
+          have hk' : k < (stepDups srt acc f).length := by rw [hinv.len]; exact hk
+          have hx : (stepDups srt acc f)[k]? = some (stepDups srt acc f)[k] := List.getElem?_eq_getElem hk'
+          cases hd : (stepDups srt acc f)[k] with
+          | none =>
+            rw [hd] at hx
+            exact Or.inr (List.mem_map.mpr ⟨k, (mem_filterExternal _ k).mpr hx, rfl⟩)
+          | some j =>
+            rw [hd] at hx
+            obtain ⟨hj, _, heq⟩ := hinv.sound k j hx
+            left
+            have h1 : pointItemBy acc pnames j ∈ W :=
+              haccW _ ((mem_pointItemsOf acc pnames _).mpr ⟨j, hj, rfl⟩)
+            have h2 : pointItemBy f pnames k ∈ W := hrestW f (List.mem_cons_self ..) _ h
+            have : pointItemBy f pnames k = pointItemBy acc pnames j :=
+              hW _ h2 _ h1 (by simpa [pointItemBy] using heq)
+            rw [this]
+            exact (mem_pointItemsOf acc pnames _).mpr ⟨j, hj, rfl⟩
+    obtain ⟨ih1, ih2, ih3⟩ := ih (stepResult srt acc f) (seen ++ f.mesh.points)
+      (stepResult_ok srt acc f d cnames pnames rsC rsP hacc hf hinv)
+      (fun g hg => hrest g (List.mem_cons_of_mem _ hg))
+      (by
+        intro q
+        have : (stepResult srt acc f).mesh.points = mergedPoints acc.mesh.points f.mesh.points (stepDups srt acc f) := rfl
+        rw [this, mem_mergedPoints _ _ _ hinv, List.mem_append, hseen])
+      (by
+        intro it hit
+        rcases (hmemstep it).mp hit with h | h
+        · exact haccW it h
+        · exact hrestW f (List.mem_cons_self ..) it h)
+      (fun g hg => hrestW g (List.mem_cons_of_mem _ hg))
+      hnew2
+    refine ⟨ih1, ?_, ?_⟩
+    · intro ct
+      rw [ih2 ct, cellItemsOf_step srt acc f d cnames pnames rsC rsP hacc hf hinv ct]
+      simp [List.flatMap_cons, List.append_assoc]
+    · intro it
+      rw [ih3 it, hmemstep it]
+      simp only [List.mem_cons, exists_eq_or_imp, or_assoc]
+
+theorem filter_empty_of_not_new (p1 p2 : List (List Int)) (dups : List (Option Nat))
+    (h : DupInv p2 p1 p1.length dups) (hnew : bringsNewPoint p1 p2 = false) :
+    (filterExternal dups).isEmpty = true := by
+  cases hf : filterExternal dups with
+  | nil => rfl
+  | cons k rest =>
+    exfalso
+    have hk : k ∈ filterExternal dups := by rw [hf]; exact List.mem_cons_self ..
+    have hkn := (mem_filterExternal dups k).mp hk
+    have hk' : k < p2.length := by
+      cases Nat.lt_or_ge k dups.length with
+      | inl h' => rw [h.len] at h'; exact h'
+      | inr h' => rw [List.getElem?_eq_none h'] at hkn; cases hkn
+    simp only [bringsNewPoint, List.any_eq_false, Bool.not_eq_true', List.contains_eq_mem,
+      decide_eq_false_iff_not, Classical.not_not] at hnew
+    have hm := hnew (p2.getD k []) (by
+      rw [List.getD_eq_getElem?_getD, List.getElem?_eq_getElem hk']; exact List.getElem_mem hk')
+    obtain ⟨j, hj, hja⟩ := List.getElem_of_mem hm
+    have : p2.getD k [] = p1.getD j [] := by
+      rw [← hja, List.getD_eq_getElem?_getD (l := p1), List.getElem?_eq_getElem hj]; rfl
+    obtain ⟨j', hj'⟩ := h.complete k j hk' hj this
+    rw [hkn] at hj'
+    cases hj'
+
+theorem pointItemsOf_nodup (f : MeshFields) (names : List String) (h : f.mesh.points.Nodup) :
+    (pointItemsOf f names).Nodup := by
+  unfold pointItemsOf
+  rw [List.nodup_iff_pairwise_ne, List.pairwise_map]
+  refine List.Pairwise.imp_of_mem ?_ (List.nodup_iff_pairwise_ne.mp List.nodup_range)
+  intro a b ha hb hab heq
+  simp only [List.mem_range] at ha hb
+  have : f.mesh.points.getD a [] = f.mesh.points.getD b [] := by
+    have := congrArg PointItem.coords heq
+    simpa [pointItemBy] using this
+  exact hab (((nodupRows_iff _).mpr h) a b ha hb this)
+
+theorem pointItems_single_valued (f : MeshFields) (names : List String) (h : f.mesh.points.Nodup) :
+    ∀ a ∈ pointItemsOf f names, ∀ b ∈ pointItemsOf f names, a.coords = b.coords → a = b := by
+  intro a ha b hb hab
+  obtain ⟨k, hk, rfl⟩ := (mem_pointItemsOf f names a).mp ha
+  obtain ⟨k', hk', rfl⟩ := (mem_pointItemsOf f names b).mp hb
+  have : k = k' := ((nodupRows_iff _).mpr h) k k' hk hk' (by simpa [pointItemBy] using hab)
+  rw [this]
+
 end Fc
